@@ -123,6 +123,21 @@ def history(ctx, rng, desc, hid):
                 if not same or not same_p:
                     ctx.violation(f"consumer-value-mismatch:{lcls}", f"map {name} field {i} ({R.NAMES[dt]}@{off}+{ln}) reads {got!r}, producer holds {got_p!r}, frame {frame.hex()} holds {want!r}", case())
             off += ln
+        # the node-level accessors (node.tpdo[name], node.pdo[name]) reach the variables of the *current* mapping
+        amap = cmaps["A"]          # = consumer.tpdo[1]: the first map a node-level lookup searches
+        a_names = [v.name for v in amap.map]
+        for i, var in enumerate(amap.map):
+            if a_names.count(var.name) == 1:
+                ctx.count("node_level_lookups")
+                try:
+                    via_node = cons.tpdo[var.name]
+                    if via_node is not var:
+                        ctx.violation("pdo-node-level-lookup-stale", f"consumer.tpdo[{var.name!r}] is not the variable of map A's current mapping "
+                                      f"(reads {via_node.raw!r}, the map's variable reads {var.raw!r})", case())
+                        break
+                except Exception as exc:  # noqa: BLE001
+                    ctx.violation(f"pdo-node-level-lookup-raised:{type(exc).__name__}", f"consumer.tpdo[{var.name!r}] raised {exc!r}", case())
+                    break
         for name, cm in cmaps.items():
             if name in listeners:
                 if cm.timestamp != frame_ts:
@@ -186,6 +201,30 @@ def history(ctx, rng, desc, hid):
                 name = rng.choice(["A", "D", "C"])
                 cm = cmaps[name]
                 cm.rtr_allowed = rng.random() < 0.6
+                if name == "C" and rng.random() < 0.6:
+                    # the configuration is learnt from the dictionary / device: COB-ID word with bit 31 (invalid) and bit 30 (no RTR)
+                    allowed, enabled = rng.random() < 0.5, rng.random() < 0.7
+                    od_c = cons.object_dictionary
+                    od_c[0x1400][1].value = (other_cob + 0x10) | (0 if allowed else 1 << 30) | (0 if enabled else 1 << 31)
+                    od_c[0x1400][2].value = 255
+                    od_c[0x1600][0].value = 1
+                    od_c[0x1600][1].value = (gen.TYPE_INDEX_BASE + R.UNSIGNED32) << 16 | 32
+                    cm.read(from_od=True)
+                    if (cm.rtr_allowed, cm.enabled, cm.cob_id) != (allowed, enabled, other_cob + 0x10):
+                        ctx.violation("configuration-read-flags", f"COB-ID word {od_c[0x1400][1].value:#x} read as cob {cm.cob_id:#x} enabled={cm.enabled} rtr_allowed={cm.rtr_allowed}", case())
+                    cm.rtr_allowed, cm.enabled = cm.rtr_allowed, cm.enabled
+                    want_rtr = allowed and enabled
+                    ops.append(("remote_request-after-read", name, enabled, allowed))
+                    mark = len(bus.log)
+                    cm.remote_request()
+                    sent = [f for f in list(bus.log)[mark:] if f.src == "consumer"]
+                    ctx.count("rtr_checks")
+                    ctx.case((f"{pk}->{ck}", "rtr-after-read", enabled, allowed), nontrivial=True)
+                    if want_rtr and (len(sent) != 1 or not sent[0].rtr or sent[0].can_id != other_cob + 0x10):
+                        ctx.violation("rtr-not-sent", f"remote_request() on a map read as enabled with RTR allowed sent {[f.brief() for f in sent]}", case())
+                    if not want_rtr and sent:
+                        ctx.violation("rtr-sent-when-not-allowed", f"remote_request() on a map whose COB-ID word says enabled={enabled} RTR allowed={allowed} sent {[f.brief() for f in sent]}", case())
+                    continue
                 ops.append(("remote_request", name, cm.enabled, cm.rtr_allowed))
                 mark = len(bus.log)
                 pm_before = (bytes(pm.data), pm.timestamp)
